@@ -121,7 +121,9 @@ def run_batch(pid, base, tier, first, end, deadline, workers, hashseeds, samples
     bufs = {(k, s): b"" for k in range(workers) for s in ("out", "err")}
     agg = {"stats": {}, "n": 0, "done": 0, "violations": [], "harness": [], "stderr": []}
     open_streams = 2 * workers
-    hard_deadline = deadline + 90.0
+    # a hung child is killed by its worker after `--wall` seconds (its traceback goes to stderr
+    # one second earlier); only then give up on the worker itself
+    hard_deadline = deadline + 90.0 + 45.0
     stopping = False
     while open_streams > 0:
         if time.time() > hard_deadline:
@@ -222,10 +224,11 @@ def run_check(pid, tier, runs, budget_s, workers):
 
     problems = []
     if agg["harness"]:
-        problems.append(f"{len(agg['harness'])} harness errors, first: {agg['harness'][0]}")
+        problems.append(f"{len(agg['harness'])} harness errors, first: {agg['harness'][0]}; stderr: "
+                        + " | ".join(agg["stderr"])[-3000:])
     if agg["workers_done"] < workers and not agg["stopped_early"]:
         problems.append(f"only {agg['workers_done']}/{workers} workers finished cleanly; stderr: "
-                        + " | ".join(agg["stderr"])[-1500:])
+                        + " | ".join(agg["stderr"])[-3000:])
 
     # ---- determinism re-check: same seeds, other workers, other hash seed
     det = {"checked": 0, "mismatch": 0}
